@@ -413,7 +413,7 @@ def diff_glyph(e, a):
     return out
 
 
-LAYER_NAMES = ["foreground", "background", "Background", "BACKGROUND", "sketches", "con", "Layer 1", "public.background", "é", "a/b", "x" * 120, "X" * 120, "x" * 260, ".hidden", "glyphs", "layer:1", "\U0001F600"]
+LAYER_NAMES = ["Ab", "a_b", "A_b", "foreground", "background", "Background", "BACKGROUND", "sketches", "con", "Layer 1", "public.background", "é", "a/b", "x" * 120, "X" * 120, "x" * 260, ".hidden", "glyphs", "layer:1", "\U0001F600"]
 
 
 INFO_ATTRS = ["familyName", "styleName", "unitsPerEm", "ascender", "descender", "italicAngle", "copyright", "note", "openTypeOS2WeightClass", "openTypeOS2WidthClass", "openTypeOS2Panose", "openTypeOS2Type", "postscriptBlueValues", "versionMajor", "versionMinor", "openTypeHeadCreated", "openTypeNameDesigner", "openTypeNameRecords", "guidelines", "woffMajorVersion", "woffMetadataCopyright"]
@@ -890,6 +890,9 @@ def _exec_ufo(ctx, h, holder):
                     if cands:
                         old = r.choice(cands)
                         new = fsname(r.choice(LAYER_NAMES))
+                        if r.random() < 0.3:
+                            # a name whose directory would equal that of a live layer ignoring case
+                            new = fsname(_same_file_other_case(r.choice(model["order"])) or new)
                         if new not in model["order"]:
                             if old in state["gsets"]:
                                 state["gsets"][old].writeContents()
